@@ -37,6 +37,8 @@ ASSUMPTIONS = [
     "marker and fixed effects are exactly +-0 or have magnitude in [1e-6, 1e3] (no subnormal numbers)",
     "score: only response matrices whose total sum of squares is well above its own rounding error",
     "rrBLUP normal-equation clause: only n > number of polymorphic markers, bound from the Gauss-Seidel stopping rule",
+    "rrBLUP fit on float-coded genotypes: binary64 dosages in [0, ploidy]; a marker is monomorphic iff all its training "
+    "records carry the same value (exact comparison), whatever that value is",
 ]
 
 # sizes d = ploidy*n at which (1.0/d)*d != 1.0 in binary64 (recomputed, not hard-coded)
@@ -622,7 +624,85 @@ def fit_case(draw):
             "trait": draw(st.sampled_from([None, "names"]))}
 
 
+# constant value of a monomorphic float-coded marker, as a fraction of the ploidy: mostly values whose n-fold sum is
+# not exact in binary64 (0.05*2 = 0.1, 0.15*2 = 0.3, ... and arbitrary 53-bit fractions), a few dyadic ones
+MONOFRAC = st.one_of(
+    st.sampled_from([0.05, 0.15, 0.55, 0.95, 0.025, 0.35, 1.0 / 3.0, 2.0 / 3.0, 0.7, 0.9, 0.25, 0.75, 0.5, 1.0]),
+    st.floats(0.0, 1.0, allow_nan=False, allow_infinity=False, allow_subnormal=False, width=64))
+
+
+@st.composite
+def fit_dosage_case(draw):
+    """Training sets whose genotype matrix is float coded (expected / imputed dosages in [0, ploidy])."""
+    regime = draw(st.sampled_from(["n>p", "n>p", "n>p", "n<=p"]))
+    if regime == "n>p":
+        p = draw(st.one_of(st.integers(1, 4), st.integers(2, 20)))
+        n = draw(st.one_of(st.integers(max(p + 1, 3), 40), st.integers(max(p + 1, 3), max(p + 1, 16))))
+    else:
+        p = draw(st.integers(3, 20))
+        n = draw(st.integers(2, max(2, p // 2)))
+    cols = []
+    for _ in range(p):
+        kind = draw(st.sampled_from(["real", "real", "imputed", "imputed", "calls", "monoreal", "monoreal", "monoint",
+                                     "copy"]))
+        col = {"kind": kind, "seed": draw(st.integers(0, 2 ** 16)), "f": draw(st.sampled_from([0.2, 0.5, 0.5, 0.8]))}
+        if kind == "monoreal":
+            col["frac"] = draw(MONOFRAC)
+        if kind == "imputed":
+            col["miss"] = draw(st.sampled_from([0.1, 0.3, 0.6]))
+            col["fill"] = draw(st.sampled_from(["mean", "posterior"]))
+        cols.append(col)
+    t = draw(st.sampled_from([1, 1, 2]))
+    return {"coding": "dosage", "ploidy": draw(st.sampled_from([2, 2, 2, 4, 1])),
+            "n": n, "p": p, "cols": cols, "t": t,
+            "yseed": draw(st.integers(0, 2 ** 16)),
+            "h": draw(st.sampled_from([0.0, 0.3, 1.0, 3.0, 30.0])),
+            "mu": draw(st.sampled_from([0.0, 10.0, -3.5, 1000.0])),
+            "constant_trait": draw(st.sampled_from([None, None, None, None, 0])),
+            "zdtype": "float64",
+            "trait": draw(st.sampled_from([None, "names"]))}
+
+
+def build_fit_dosage(case):
+    """float64 dosage matrix with entries in [0, ploidy] and responses, deterministic from the case"""
+    n, p, pl = case["n"], case["p"], float(case["ploidy"])
+    Z = numpy.zeros((n, p), dtype="float64")
+    for j, col in enumerate(case["cols"]):
+        k = col["kind"]
+        r = numpy.random.default_rng(col["seed"])
+        if k == "monoreal":
+            Z[:, j] = min(pl, max(0.0, float(col["frac"]) * pl))     # every record carries the same (imputed) dosage
+        elif k == "monoint":
+            Z[:, j] = float(col["seed"] % (int(pl) + 1))
+        elif k == "copy" and j > 0:
+            Z[:, j] = Z[:, j - 1]
+        elif k == "real" or k == "copy":
+            Z[:, j] = r.random(n) * pl                                   # expected dosages
+        else:
+            calls = r.binomial(int(pl), col["f"], size=n).astype(float)
+            if k == "imputed":
+                miss = r.random(n) < col["miss"]
+                if col["fill"] == "mean":
+                    obs = calls[~miss]
+                    fill = float(obs.mean()) if len(obs) else col["f"] * pl
+                    calls[miss] = min(pl, max(0.0, fill))
+                else:
+                    calls[miss] = numpy.clip(calls[miss] + 0.25 * r.normal(size=int(miss.sum())), 0.0, pl)
+            Z[:, j] = calls
+    # at least one polymorphic marker, by construction
+    if all(len(set(Z[:, j].tolist())) == 1 for j in range(p)):
+        Z[0, 0], Z[1, 0] = 0.0, 0.75 * pl
+    r = numpy.random.default_rng(case["yseed"])
+    u = r.normal(size=(p, case["t"]))
+    Y = case["mu"] + case["h"] * (Z @ u) + r.normal(size=(n, case["t"]))
+    if case["constant_trait"] is not None:
+        Y[:, case["constant_trait"]] = case["mu"]
+    return Z, Y
+
+
 def build_fit(case):
+    if case.get("coding") == "dosage":
+        return build_fit_dosage(case)
     n, p = case["n"], case["p"]
     Z = numpy.zeros((n, p), dtype=int)
     for j, col in enumerate(case["cols"]):
@@ -681,7 +761,25 @@ def check_fit(case, ctx):
     ctx.label("has_monomorphic_marker", ppoly < p)
     ctx.label("has_duplicate_marker", any(c["kind"] == "copy" for c in case["cols"][1:]))
     ctx.label("has_constant_trait", case["constant_trait"] is not None)
-    ctx.nontrivial(ppoly >= 2 and ppoly < p)
+    dosage = case.get("coding") == "dosage"
+    if dosage:
+        # classification of the generated matrix only (never used by a clause): is there a marker that is constant
+        # across the records at a value v whose n-fold sum is not exact, so that mean(column) != v / spread != 0 when
+        # computed in floating point although the marker is monomorphic
+        monovals = [float(Zi[0, j]) for j in range(p) if not polymask[j]]
+        nondyadic = [v for v in monovals if Fraction(v).denominator > 2 ** 12]
+        inexact = [v for v in monovals if float(numpy.full(n, v).mean()) != v or float(numpy.full(n, v).std()) != 0.0]
+        ctx.label("float_coded_dosages", any(float(v) != round(float(v)) for v in Zi.ravel().tolist()))
+        ctx.label("monomorphic_at_noninteger_value", any(v != round(v) for v in monovals))
+        ctx.label("monomorphic_at_nondyadic_value", bool(nondyadic))
+        ctx.label("monomorphic_value_mean_or_spread_not_exact", bool(inexact))
+        ctx.label("ploidy%d" % case["ploidy"])
+        ctx.label("n_3_to_11", 3 <= n <= 11)
+        ctx.label("n_12_to_40", 12 <= n <= 40)
+        ctx.check(bool(((Zi >= 0.0) & (Zi <= case["ploidy"])).all()), "harness.dosage_in_range")
+        ctx.nontrivial(ppoly >= 2 and bool(nondyadic))
+    else:
+        ctx.nontrivial(ppoly >= 2 and ppoly < p)
 
     Ysnap, Zsnap = Y.copy(), Z.copy()
     mod = rrBLUPModel0.fit_numpy(Y, None, Z, trait=trait)
@@ -757,8 +855,9 @@ def check_fit(case, ctx):
                       lambda: "max |Z'y - (Z'Z + lambda I)u| = %r > bound %r (tolerance exit %r, maxiter exit %r), "
                               "lambda=%r, ||Z'y||_inf=%r" % (rmax, bound + rounding, b1, b2, lam, bscale))
 
-    # object-level wrapper: same result as fit_numpy on the dosage matrix
-    g = DenseGenotypeMatrix(mat=Zi.astype("int8"), ploidy=2)
+    # object-level wrapper: same result as fit_numpy on the dosage matrix (a float-coded matrix has no genotype-matrix
+    # object form: it reaches the wrapper, and gebv below, as the raw dosage array both document)
+    g = Zi.copy() if dosage else DenseGenotypeMatrix(mat=Zi.astype("int8"), ploidy=2)
     mod2 = rrBLUPModel0.fit(Y, None, g, trait=trait)
     ctx.check(_eq_arr(mod2.u_a, mod.u_a) and _eq_arr(mod2.beta, mod.beta) and _eq_arr(mod2.trait, trait),
               "fit.wrapper_matches_fit_numpy")
@@ -788,6 +887,14 @@ SUBCHECKS = [
              rule="generated model x genotype matrix (phased|unphased) x dtype arguments; non-trivial = trait 0 has at "
                   "least one locus in each class: favourable fixed, deleterious fixed, neutral, polymorphic non-neutral",
              required_labels=("all_four_locus_classes", "has_negative_zero_effect", "n_in_rounding_set")),
+    SubCheck("fit_dosage", check_fit, fit_dosage_case(), quick=90, thorough=600, shards_quick=4,
+             rule="generated training sets with a float-coded genotype matrix (expected dosages uniform in [0, ploidy], "
+                  "calls with mean-filled or posterior-expectation imputed entries, markers constant across the records "
+                  "at an arbitrary real value, duplicated markers; ploidy 1/2/4, n 2-40, n>p and n<=p, 1-2 traits); "
+                  "non-trivial = >= 2 polymorphic markers and >= 1 marker monomorphic at a non-dyadic value",
+             required_labels=("n_gt_npoly", "n_le_npoly", "float_coded_dosages", "monomorphic_at_nondyadic_value",
+                              "monomorphic_value_mean_or_spread_not_exact", "normal_eq_bound_tight", "n_3_to_11",
+                              "n_12_to_40", "has_constant_trait")),
     SubCheck("fit", check_fit, fit_case(), quick=100, thorough=600, shards_quick=4,
              rule="generated training sets (Z in {0,1,2} with forced monomorphic and duplicated columns, n>p and n<=p, "
                   "1-2 traits, signal-to-noise 0..30, constant response); non-trivial = >= 2 polymorphic and >= 1 "
